@@ -115,7 +115,11 @@ def handleTick : Handler := fun j a => do
   let panicked := oSteps.contains "PANIC"
   if mSteps != oSteps then a := a.mismatch s!"mgrtick steps impl={oSteps} model={mSteps} (all model steps {repr out.steps}) on {j.compress}"
   if !panicked && stateName out.next != oNext then a := a.mismatch s!"mgrtick next impl={oNext} model={stateName out.next} on {j.compress}"
-  if !panicked && out.failedAt.getD 0 != oFailed then a := a.mismatch s!"mgrtick failedAt impl={oFailed} model={out.failedAt} on {j.compress}"
+  -- the process reads the clock when it notices the failure, i.e. somewhere inside the iteration: a timer the model
+  -- starts in this iteration (`some i.now` with no timer before) matches any instant of the iteration
+  let nowEnd := ((j.getObjVal? "in").toOption.bind fun ij => (jInt ij "now_end").toOption).getD i.now
+  let startedNow := i.failedAt.isNone && out.failedAt == some i.now
+  if !panicked && out.failedAt.getD 0 != oFailed && !(startedNow && i.now ≤ oFailed && oFailed ≤ nowEnd) then a := a.mismatch s!"mgrtick failedAt impl={oFailed} model={out.failedAt} on {j.compress}"
   let master := i.master.getD ""
   -- ---- C05 monitors ----
   if oSteps.contains "issueFailover" then
